@@ -209,21 +209,25 @@ def Ledger.releaseAll (cfg : Cfg) (s : Ledger) : List Nat → Option Ledger
     | none => none
     | some s => s.releaseAll cfg rest
 
-/-- `node.Refer(n)`: child struct (unmanaged, `buf = node.buf[off:off+n:off+n]`), origin's count + 1,
-parent's `off` advanced.  Returns the child id. -/
+/-- the root a child of `nd` (struct `i`) refers to: `node.origin` if set, else the node itself -/
+def NodeS.originOf (nd : NodeS) (i : Nat) : Nat :=
+  match nd.origin with
+  | some o => o
+  | none => i
+
+/-- the struct `Refer(n)` makes: unmanaged, `buf = node.buf[off:off+n:off+n]` -/
+def NodeS.childOf (nd : NodeS) (i n : Nat) : NodeS :=
+  { unmanaged := true, block := nd.block, lo := nd.lo + nd.off, blen := n, cap := n, origin := some (nd.originOf i) }
+
+/-- `node.Refer(n)`: child struct, origin's count + 1, parent's `off` advanced.  Returns the child id. -/
 def Ledger.refer (cfg : Cfg) (s : Ledger) (i : Nat) (n : Nat) : Option (Ledger × Nat) :=
   match s.nodes[i]? with
   | none => none
   | some nd =>
-    let (s, c) := s.newNode cfg 0
-    let o := match nd.origin with
-      | some o => o
-      | none => i
-    let s := s.setNode c { unmanaged := true, block := nd.block, lo := nd.lo + nd.off, blen := n, cap := n, origin := some o }
-    let s := s.setNode i { nd with off := nd.off + n }
-    match s.nodes[o]? with
+    let s1 := ((s.newNode cfg 0).1.setNode (s.newNode cfg 0).2 (nd.childOf i n)).setNode i { nd with off := nd.off + n }
+    match s1.nodes[nd.originOf i]? with
     | none => none
-    | some on => some (s.setNode o { on with refer := on.refer + 1 }, c)
+    | some on => some (s1.setNode (nd.originOf i) { on with refer := on.refer + 1 }, (s.newNode cfg 0).2)
 
 /-! ### views (ghost) -/
 
@@ -333,6 +337,24 @@ def peekLoop : List (Nat × NodeS) → Nat → Nat → Nat → Option Nat
           let copyn := min (n - plen) (l - start)
           peekLoop rest (scanned + l) (plen + copyn) n
 
+/-- `if b.cachePeek != nil && cap(b.cachePeek) < n { b.caches = append(b.caches, b.cachePeek); b.cachePeek = nil }` -/
+def Buf.retirePeek (b : Buf) (n : Nat) : Buf :=
+  match b.cachePeek with
+  | some (blk, _, cp) => if cp < n then { b with caches := b.caches ++ [blk], cachePeek := none } else b
+  | none => b
+
+/-- the multi-node Peek once the cache `(blk, l, cp)` is chosen: return it, or append up to `n` bytes -/
+def peekFill (s : Ledger) (id : Nat) (b : Buf) (n blk l cp : Nat) : Option (Ledger × Buf) :=
+  if l ≥ n then some (s.addView (some blk) 0 n id, { b with cachePeek := some (blk, l, cp) })
+  else
+    match s.resolve (b.chain.drop b.r) with
+    | none => none
+    | some suf =>
+      match peekLoop suf 0 l n with
+      | none => none
+      | some l' =>
+        some ((s.emit (.write blk l l')).addView (some blk) 0 n id, { b with cachePeek := some (blk, l', cp) })
+
 /-- `Peek(n)` -/
 def peek (cfg : Cfg) (s : Ledger) (id : Nat) (b : Buf) (n : Int) : Option (Ledger × Buf) :=
   if n ≤ 0 then some (s, b)
@@ -346,24 +368,10 @@ def peek (cfg : Cfg) (s : Ledger) (id : Nat) (b : Buf) (n : Int) : Option (Ledge
         let s := s.setNode i { nd with exposed := true }
         some (s.addView nd.block (nd.lo + nd.off) (nd.lo + nd.off + n) id, b)
       | some (b, _, _, false) =>
-        -- a cache that is too small is retired to `caches`
-        let b : Buf := match b.cachePeek with
-          | some (blk, _, cp) => if cp < n then { b with caches := b.caches ++ [blk], cachePeek := none } else b
-          | none => b
-        let (s, blk, l, cp) : Ledger × Nat × Nat × Nat := match b.cachePeek with
-          | some (blk, l, cp) => (s, blk, l, cp)
-          | none =>
-            let (s, blk, cp) := s.mallocMem cfg n
-            (s, blk, 0, cp)
-        if l ≥ n then some (s.addView (some blk) 0 n id, { b with cachePeek := some (blk, l, cp) })
-        else
-          match s.resolve (b.chain.drop b.r) with
-          | none => none
-          | some suf =>
-            match peekLoop suf 0 l n with
-            | none => none
-            | some l' =>
-              some ((s.emit (.write blk l l')).addView (some blk) 0 n id, { b with cachePeek := some (blk, l', cp) })
+        -- a cache that is too small is retired to `caches`; `malloc(0, n)` if there is none
+        match (b.retirePeek n).cachePeek with
+        | some (blk, l, cp) => peekFill s id (b.retirePeek n) n blk l cp
+        | none => peekFill (s.mallocMem cfg n).1 id (b.retirePeek n) n (s.mallocMem cfg n).2.1 0 (s.mallocMem cfg n).2.2
 
 def skipLoop : List (Nat × NodeS) → Nat → Option (List (Nat × NodeS) × Nat)
   | [], _ => none
